@@ -334,6 +334,40 @@ pub fn fit_stats<T: Sc>(spec: &ProblemSpec, cfg: &LmCfg, class: &'static str) ->
     }
 }
 
+/// sigma^2 = |W (y - Phi(alpha^) c^)|^2 / (N - M - P) recomputed by the oracle in f64 from the supplied data
+/// and the *reported* alpha^, c^ - independent of every quantity the statistics report. Returns
+/// (sigma^2, relative tolerance); None where the residual is dominated by the rounding of its own
+/// ingredients in T (then sigma^2 is not determined by the reported numbers).
+pub fn oracle_sigma2<T: Sc>(spec: &ProblemSpec, alpha: &[f64], c: &Mat, nu: usize) -> Option<(f64, f64)> {
+    if nu == 0 {
+        return None;
+    }
+    let phi = spec.model.phi64::<T>(alpha);
+    let w = spec.w64::<T>();
+    let y = spec.y64::<T>();
+    if !phi.all_finite() || !c.all_finite() {
+        return None;
+    }
+    let fit = phi.mul(c);
+    let absfit = phi.abs().mul(&c.abs());
+    let (mut ss, mut rounding) = (0.0f64, 0.0f64);
+    for i in 0..phi.r {
+        let r = w[i] * (y.at(i, 0) - fit.at(i, 0));
+        ss += r * r;
+        let e = w[i].abs() * (y.at(i, 0).abs() + absfit.at(i, 0)) * (phi.c as f64 + 2.0) * T::EPS;
+        rounding += e * e;
+    }
+    if !(ss.is_finite()) || ss <= 0.0 {
+        return None;
+    }
+    // relative uncertainty of |r|^2 caused by rounding of the residual's ingredients: 2|delta|/|r|
+    let rel = 64.0 * 2.0 * (rounding / ss).sqrt() + 1e-12;
+    if rel > 1e-2 {
+        return None;
+    }
+    Some((ss / nu as f64, rel))
+}
+
 /// Column-equilibrated view of the weighted model Jacobian: d_i = |h_i|, G = (H D^-1)^T (H D^-1)
 /// and its condition number. Cholesky-based inversion is accurate relative to *this* condition
 /// number (van der Sluis), so badly scaled but otherwise well-posed problems stay decidable.
